@@ -1,0 +1,30 @@
+// Copyright © 2024 Attestant Limited.
+// Licensed under the Apache License, Version 2.0 (the "License");
+// you may not use this file except in compliance with the License.
+// You may obtain a copy of the License at
+//
+//     http://www.apache.org/licenses/LICENSE-2.0
+//
+// Unless required by applicable law or agreed to in writing, software
+// distributed under the License is distributed on an "AS IS" BASIS,
+// WITHOUT WARRANTIES OR CONDITIONS OF ANY KIND, either express or implied.
+// See the License for the specific language governing permissions and
+// limitations under the License.
+
+//go:build verif
+
+package standard
+
+import "github.com/attestantio/go-eth2-client/spec/phase0"
+
+// VerifAttestedEpochs returns the epochs for which the attested-validators map holds an entry.
+// For external runtime monitors only.
+func (s *Service) VerifAttestedEpochs() []phase0.Epoch {
+	s.attestedMu.Lock()
+	defer s.attestedMu.Unlock()
+	epochs := make([]phase0.Epoch, 0, len(s.attested))
+	for epoch := range s.attested {
+		epochs = append(epochs, epoch)
+	}
+	return epochs
+}
